@@ -120,5 +120,5 @@ POSTPROC = dict(
 CONTRACTS = [POSTPROC, SEND_SAMPLES, W_DRIVE, MOVE_NEXT, MAY_COMPLETE, JOINPOINT, UPDATE, POST_PROCESS]
 ASSUMPTIONS = ["FIFO delivery (UpdateSamples before JoinPointReached of the same worker); pickle/zlib round trip of externalised metrics is the identity", "Sampler.samples drains the whole queue (queue.Queue semantics)",
                "the executor thread only touches sampler, complete, cancel"]
-NOT_DECIDED = ["interleaving of periodic ticks, shipments and hand-overs (outside this family)", "SamplePostprocessor.__call__ record counts, MetricsStore._put_metric / to_externalizable / bulk_add (not yet under contract in this revision)"]
+NOT_DECIDED = ["interleaving of periodic ticks, shipments and hand-overs (outside this family)", "the service_time record count of SamplePostprocessor (checked at its call site only), throughput records, MetricsStore._put_metric / to_externalizable / bulk_add (not under contract)"]
 TRUSTED = []
